@@ -751,3 +751,33 @@ def _only_read_by_own_update(repo, funcs, attr):
             if isinstance(n, ast.Attribute) and isinstance(n.ctx, ast.Load) and text(n.value) == "self" and n.attr == attr:
                 return False
     return True
+
+
+@rule("R06.9", ["C06", "C09"], "T-FUN", floor=2)
+def r06_9(ctx):
+    """EZSP._command resolves the command on the handler that is installed *now*: after the handler object has been
+    replaced (version switch, reset) the same command name is sent through the new handler, not through a
+    remembered one - a request registered in a discarded handler would never see its reply."""
+    repo = ctx.repo
+    f = repo.func("bellows.ezsp:EZSP._command")
+    ctx.fn(f)
+    ez = repo.cls("bellows.ezsp", "EZSP")
+    for ver_a, ver_b in ((8, 8), (4, 8), (8, 4)):
+        px = PX(repo, models=[("*.is_set", lambda px_, t, a, k, fr: True)], inline=same_class(stop=("handle_callback",)))
+        px.inline.root = f
+
+        def entry():
+            me = self_obj(ez, {"_protocol": Obj(TypeRef("Handler"), {}, tag="handlerA"), "_ezsp_version": ver_a})
+            px.top_frame = None
+            px.call_function(f, me, ["nop"], {}, None)
+            me.fields["_protocol"] = Obj(TypeRef("Handler"), {}, tag="handlerB")
+            me.fields["_ezsp_version"] = ver_b
+            px.call_function(f, me, ["nop"], {}, None)
+            return None
+
+        for p in px._run(entry):
+            aw = [e for e in p.events if e.kind == "await"]
+            got = [e.callee for e in aw]
+            ctx.require(p.terminal == "return" and got == ["handlerA.nop", "handlerB.nop"], f"current-handler:{ver_a}->{ver_b}",
+                        f"two nop commands around a handler replacement (version {ver_a} -> {ver_b}) are sent through {got}; the second must use the "
+                        "new handler", func=f, trace=p.trace(10))
